@@ -201,36 +201,75 @@ func c15(p *model.Prog, r *report.Result) {
 			continue
 		}
 		nSets++
-		ok2 := false
-		model.EachInstr(dis, func(in ssa.Instruction) {
-			ci, isC := in.(ssa.CallInstruction)
-			if !isC {
-				return
-			}
-			o := model.CalleeObj(ci.Common())
-			if o == nil || o.Name() != "Dispose" {
-				return
-			}
-			recv := receiver(ci.Common())
-			if rangedField(iterOrigin(recv)) != f {
-				return
-			}
-			// guarded by the false edge of IsAlive()'s second result on the same element
-			if model.GuardedBy(ci, func(c ssa.Value, pol bool) bool {
-				ex, isEx := c.(*ssa.Extract)
-				if !isEx || ex.Index != 1 || pol {
-					return false
+		// sweeps(fn, isElem): fn calls Dispose on a receiver satisfying isElem, on the false edge
+		// of the second result of IsAlive() of the same receiver
+		sweeps := func(fn *ssa.Function, isElem func(ssa.Value) bool) bool {
+			found := false
+			model.EachInstr(fn, func(in ssa.Instruction) {
+				ci, isC := in.(ssa.CallInstruction)
+				if !isC {
+					return
 				}
-				call, isCall := ex.Tuple.(*ssa.Call)
-				if !isCall {
-					return false
+				var name string
+				if o := model.CalleeObj(ci.Common()); o != nil {
+					name = o.Name()
+				} else if ci.Common().IsInvoke() {
+					name = ci.Common().Method.Name()
 				}
-				oo := model.CalleeObj(call.Common())
-				return oo != nil && oo.Name() == "IsAlive" && receiver(call.Common()) == recv
-			}) {
-				ok2 = true
+				if name != "Dispose" {
+					return
+				}
+				recv := receiver(ci.Common())
+				if !isElem(recv) {
+					return
+				}
+				if model.GuardedBy(ci, func(c ssa.Value, pol bool) bool {
+					ex, isEx := c.(*ssa.Extract)
+					if !isEx || ex.Index != 1 || pol {
+						return false
+					}
+					call, isCall := ex.Tuple.(*ssa.Call)
+					if !isCall {
+						return false
+					}
+					n2 := ""
+					if oo := model.CalleeObj(call.Common()); oo != nil {
+						n2 = oo.Name()
+					} else if call.Common().IsInvoke() {
+						n2 = call.Common().Method.Name()
+					}
+					return n2 == "IsAlive" && receiver(call.Common()) == recv
+				}) {
+					found = true
+				}
+			})
+			return found
+		}
+		fromSet := func(v ssa.Value) bool {
+			if mi, isMI := v.(*ssa.MakeInterface); isMI {
+				v = mi.X
 			}
-		})
+			return rangedField(iterOrigin(v)) == f
+		}
+		ok2 := sweeps(dis, fromSet)
+		if !ok2 {
+			// the test-and-dispose may be a same-package helper given the element
+			for _, ci := range model.AllCalls(dis) {
+				ce := ci.Common().StaticCallee()
+				if ce == nil || ce.Blocks == nil || ce.Pkg != dis.Pkg || len(ce.Params) != len(ci.Common().Args) {
+					continue
+				}
+				for k, a := range ci.Common().Args {
+					if !fromSet(a) {
+						continue
+					}
+					prm := ce.Params[k]
+					if sweeps(ce, func(v ssa.Value) bool { return v == ssa.Value(prm) }) {
+						ok2 = true
+					}
+				}
+			}
+		}
 		r.Check(ok2, "C15.R4", "Group|sweep|"+f.Name(), p.Pos(dis.Pos()), "swept: Dispose on !writeAlive", "subscriber set "+f.Name()+" is not covered by the liveness sweep: a stalled consumer of that kind is never disconnected")
 	}
 	if nSets < 4 {
